@@ -17,13 +17,13 @@ ASSUMPTIONS = ["tie ambiguity is decided with the reference model's Q-values"]
 BATCH = {"quick": 2, "thorough": 4}
 TIMEOUT = {"quick": 1500, "thorough": 7200}
 FLOORS = {
-    "quick": {"c08_agent_paths_compared": 1500, "c08_variants_run": 120, "models_simulated": 30},
+    "quick": {"c08_agent_paths_compared": 1500, "c08_variants_run": 120, "models_simulated": 25},
     "thorough": {"c08_agent_paths_compared": 40000, "c08_variants_run": 1500, "models_simulated": 300},
 }
 
 
 def plan(tier, seed):
-    n = 56 if tier == "quick" else 600
+    n = 44 if tier == "quick" else 600
     cases = []
     for i in range(n):
         stoch = i % 7 == 6
